@@ -1065,6 +1065,9 @@ class Interp:
             sub = o.name + "." + name
             if self.is_repo_module(sub):
                 return self.load_module(sub)
+            if not self.is_repo_module(o.name) and not name.startswith("__"):
+                # a stub of a module that is not the repository's: what the stub lacks is outside the subset, not absent
+                raise Untranslatable(f"{o.name}.{name} (no stub)")
             raise Raised(AttributeError(f"module '{o.name}' has no attribute '{name}'"))
         if isinstance(o, RepoFunction):
             if name == "__name__":
